@@ -8,6 +8,8 @@ _C13_JOBS = [
     dict(_C13_SRC, mode="copyarray", defs=["NXC_MODE_COPYARRAY"], max_restarts=400),
     # g++ -O2: numeric strings of every length 1..1300, value oracle only
     dict(_C13_SRC, mode="strings", flavour="fast", defs=["NXC_MODE_STRINGS"]),
+    # the same sweep with ARDUINOJSON_ENABLE_PROGMEM=1 (powers-of-ten tables read through pgm_read_*; repository stubs)
+    dict(_C13_SRC, mode="strings", flavour="fast", defs=["NXC_MODE_STRINGS"], arduino=True),
     # g++ -O2: the 2^32 loops (quick: a grid of 65536-value blocks around every multiple of 2^22)
     dict(_C13_SRC, mode="convert32", flavour="fast", defs=["NXC_MODE_CONVERT32"],
          quick_args=["--blocks=grid"], thorough_args=["--blocks=all"]),
